@@ -244,6 +244,8 @@ def search(ctx, focus=None):
     for _ in range(ctx.n(200, 3000)):
         h = [(gen_style(rng), True) for _ in range(rng.randint(1, 3))]
         st = rng.choice(["fill: red", "stroke-width: 2", "stroke: blue; color: red", gen_style(rng)])
+        if rng.random() < 0.5:
+            h.insert(rng.randrange(len(h) + 1), (st, True))      # the very same string was met inside SVG before (a memo keyed on the string alone would answer from there)
         n += 1
         distinct.add((st, False, str(h)))
         failures += check_direct(st, False, history=h)
@@ -256,7 +258,10 @@ def search(ctx, focus=None):
         el = rng.choice(["p", "span", "div", "td", "a"])
         m = '<%s style="%s">x</%s>' % (el, attr_esc(st), el)
         if rng.random() < 0.3:
-            m = '<svg xmlns="http://www.w3.org/2000/svg"><g style="%s"><rect style="%s"/></g></svg><p style="%s">y</p>' % (attr_esc(st), attr_esc(gen_style(rng)), attr_esc(gen_style(rng)))
+            if rng.random() < 0.4:
+                st = rng.choice(["fill: red; color: blue", "stroke-width: 2", "stroke: blue; fill-opacity: 0.5; margin: 1px"]) if rng.random() < 0.5 else st
+            m = '<svg xmlns="http://www.w3.org/2000/svg"><g style="%s"><rect style="%s"/></g></svg><p style="%s">y</p>' % (
+                attr_esc(st), attr_esc(gen_style(rng)), attr_esc(st if rng.random() < 0.5 else gen_style(rng)))
         typ = rng.choice(["text/html", "application/xhtml+xml"])
         via = rng.choice(["direct", "parse"])
         n += 1
@@ -266,7 +271,7 @@ def search(ctx, focus=None):
             "rule": "style strings = 1-4 declarations over {allow-listed, shorthand, SVG, not allow-listed, case-varied} properties x value grammar "
                     "(keywords, lengths, colours, rgb(), quoted strings, parenthesised groups, url()/expression()/calc() in several spellings, escapes, "
                     "comments, at-rules, braces, angle brackets, control/whitespace characters, non-ASCII) x separator layouts; direct, after SVG-styled "
-                    "histories, and via sanitize_html / parse() inside and outside <svg>; every surviving style value is judged by an independent CSS "
+                    "histories (incl. the same string met inside SVG first), and via sanitize_html / parse() inside and outside <svg>; every surviving style value is judged by an independent CSS "
                     "tokenizer; distinct = distinct inputs (all contain at least one declaration-like fragment)",
             "samples": [{"style": "width: url(1 1); color: expression(1)", "svg": False}, {"markup": '<p style="color: red;\\nwidth: expression(alert(1))">'}]}
 
